@@ -9002,6 +9002,8 @@ class SVG(Group):
 
         # Semiparse the nodes. All nodes are given in iterparse ordering with start-ns, start, and end.
         # Use values are inlined.
+        expanding = []  # ids of the references being expanded, to cut reference cycles
+
         def semiparse(nodes):
             for elem, children in nodes:
                 if children is None:
@@ -9019,11 +9021,13 @@ class SVG(Group):
                         url = semiattr[XLINK_HREF]
                     if SVG_HREF in semiattr:
                         url = semiattr[SVG_HREF]
-                    if url is not None:
+                    if url is not None and url[1:] not in expanding:
+                        expanding.append(url[1:])
                         try:
                             yield from semiparse([event_defs[url[1:]]])
                         except KeyError:
                             pass  # Failed to find link.
+                        expanding.pop()
                 yield tag, "end", elem
 
         yield from semiparse(nodes)
